@@ -12,7 +12,7 @@ import b09parse as BP
 import b09text as T
 import exprsem as S
 import gens_b09 as G
-from common import hexs, rng, run_driver, unhex
+from common import hexs, note, rng, run_driver, unhex
 
 OPTS = {"flags": "0100000", "storage": 32, "procname": "", "sizes": []}
 
@@ -257,9 +257,12 @@ def oracle(case, impl):
         try:
             want = decb_value(case, env)
         except S.EvalError:
+            note("expr: environment skipped, Color BASIC raises an error")
             continue              # Color BASIC raises an error for these values: nothing to compare
         except Exception:  # noqa: BLE001
+            note("expr: case skipped, reference reader does not cover the spelling")
             return None           # the reference reader does not cover this spelling
+        note("expr: environment compared")
         try:
             got = b09_value(case, out, env)
         except (S.EvalError, BP.ParseFail, StopIteration, KeyError, IndexError) as e:
